@@ -128,10 +128,41 @@ theorem routing_by_subject (t : Transport) (tgt : Target) (m : Msg) (q : Str) (q
     | cons c cs => rfl
   simp [send, hs, ht]
 
-/-- `routing_by_subject` on the engine's event producer: subject = an instance queue that is declared -/
+/-- a task request goes (through the task producer, i.e. the default exchange) to the queue named by the
+function, carries this instance's reply queue and the event's id as correlation id, asks to be returned if
+unroutable, and has a non-negative integer expiration; a reply published to its reply-to reaches the
+requesting instance's reply queue and no other -/
+theorem rpc_addressing (t : Transport) (qt : QType) (iid fn corr payload : Str) (carrier : Dict) (timeoutMs : Int)
+    (queues : List Str) (hf : fn ≠ []) :
+    let f := send t ⟨[], []⟩ (rpcRequest qt iid fn corr payload carrier timeoutMs)
+    f.exchange = [] ∧ f.routingKey = .str fn ∧ f.props.replyTo = .str (replyName qt iid) ∧
+    f.props.correlationId = .str corr ∧ f.mandatory = true ∧ f.body = payload ∧
+    (∃ n : Nat, f.props.expiration = some (natDigits n)) ∧
+    routeDefault queues f.props.replyTo = (if replyName qt iid ∈ queues then [replyName qt iid] else []) := by
+  have h := routing_by_subject t ⟨[], []⟩
+    ({ body := payload, properties := carrier, contentType := .str ['a', 'p', 'p', 'l', 'i', 'c', 'a', 't', 'i', 'o', 'n', '/', 'j', 's', 'o', 'n'],
+       correlationId := .str corr, replyTo := .str (replyName qt iid), expiration := .int timeoutMs,
+       mandatory := true } : Msg) fn queues hf
+  have ht : (Json.str fn).truthy = true := by
+    cases fn with
+    | nil => exact absurd rfl hf
+    | cons c cs => rfl
+  refine ⟨rfl, h.1, ?_, ?_, ?_, ?_, ?_, ?_⟩
+  · simp [send, rpcRequest, Msg.setSubject, ht]
+  · simp [send, rpcRequest, Msg.setSubject, ht]
+  · simp [send, rpcRequest, Msg.setSubject, ht]
+  · simp [send, rpcRequest, Msg.setSubject, ht]
+  · have h0 : (['0'] : Str) = natDigits 0 := by decide
+    simp only [send, rpcRequest, Msg.setSubject, ht, if_true, clamp, clampInt]
+    split
+    · exact ⟨0, by rw [h0]⟩
+    · exact ⟨timeoutMs.toNat, rfl⟩
+  · simp [send, rpcRequest, Msg.setSubject, ht, routeDefault]
+
+/-- `rpc_addressing` / `routing_by_subject` on the engine's event producer: subject = an instance queue that is declared -/
 example : (send .asyncio ⟨[], QN⟩ (Msg.setSubject { body := [], properties := [] } (.str (QN ++ ['-', 'a'])))).routingKey
       = .str (QN ++ ['-', 'a']) ∧ QN ++ ['-', 'a'] ≠ [] ∧
-    routeDefault [QN, QN ++ ['-', 'a']] (.str (QN ++ ['-', 'a'])) = [QN ++ ['-', 'a']] := by decide
+    routeDefault [QN, QN ++ ['-', 'a']] (.str (QN ++ ['-', 'a'])) = [QN ++ ['-', 'a']] ∧ (['f', '1'] : Str) ≠ [] := by decide
 
 /-- for every expiration value — absent, any integer, any text (numeric, padded, with exponent, negative,
 non-numeric, `inf`, `nan`) — the property sent is absent, or the decimal text of a non-negative integer -/
